@@ -574,7 +574,7 @@ class Engine:
         if node.id in ('np', 'numpy'):
             return Opaque('np')
         if node.id in SPEC_BUILTINS or node.id in ('range', 'len', 'int', 'float', 'abs', 'min', 'max', 'print', 'tuple', 'isinstance', 'BCTParamError',
-                                                    'ValueError', 'KeyError', 'TypeError', 'bool'):
+                                                    'ValueError', 'KeyError', 'TypeError', 'bool', 'list'):
             return Opaque('builtin', name=node.id)
         if node.id in self.callees:
             return Opaque('callee', name=node.id)
@@ -925,6 +925,13 @@ class Engine:
             return None
         if name == 'tuple':
             return TupleV(args[0]) if isinstance(args[0], (tuple, list)) else args[0]
+        if name == 'list':
+            a0 = args[0]
+            if isinstance(a0, Opaque) and a0.kind == 'range' and len(a0.args) == 1:
+                r_ = Row(a0.args[0], lambda q: q, INT)        # list(range(n)): the positions 0..n-1 (used as an index vector only)
+                r_.identity = True
+                return r_
+            raise OutOfSubset('list(...) of this argument')
         raise OutOfSubset('builtin %s' % name)
 
     # ---- statements ------------------------------------------------------------------------------
@@ -2479,6 +2486,33 @@ def _sb_lemma_mpw(eng, st, node):
     return z3.And(mpw(G, z3.IntVal(1)) == G, z3.Implies(d >= 1, z3.And(mpw(G, d + 1) == mdot(mpw(G, d), G), mpw(G, d + 1) == mdot(G, mpw(G, d)))))
 
 
+def _sb_lemma_nonneg_sum_zero(eng, st, node):
+    """LEMMA (Lean: colsum_zero_of_nonneg, rowsum_zero_of_nonneg): in an entrywise non-negative matrix a
+    column (row) whose sum is 0 consists of zeros.  lemma_nonneg_sum_zero(M, n)."""
+    M = _term2(eng, st, eng.ev(node.args[0], st))
+    n = to_z3(eng.ev(node.args[1], st), INT)
+    x, y = z3.Ints('x!nz y!nz')
+    inxy = z3.And(x >= 0, x < n, y >= 0, y < n)
+    m_ = lambda a, b: z3.Select(z3.Select(M, a), b)
+    hyp = z3.ForAll([x, y], z3.Implies(inxy, m_(x, y) >= 0))
+    return z3.Implies(hyp, z3.And(z3.ForAll([x, y], z3.Implies(z3.And(inxy, csum(M, y, n) == 0), m_(x, y) == 0), patterns=[z3.MultiPattern(csum(M, y, n), m_(x, y))]),
+                                  z3.ForAll([x, y], z3.Implies(z3.And(inxy, sum1(z3.Select(M, x), n) == 0), m_(x, y) == 0), patterns=[z3.MultiPattern(sum1(z3.Select(M, x), n), m_(x, y))])))
+
+
+def _sb_lemma_walk_ends(eng, st, node):
+    """LEMMA (Lean: walk_first_edge, walk_last_edge; from walk_one / walk_succ / walk_succ_prefix): a walk of m >= 1 connections from x to y
+    starts with a connection out of x and ends with a connection into y.  lemma_walk_ends(G, n)."""
+    G = _term2(eng, st, eng.ev(node.args[0], st))
+    n = to_z3(eng.ev(node.args[1], st), INT)
+    x, y, m = z3.Ints('x!we y!we m!we')
+    fw = z3.Function('walkout!%d' % next(_fresh), INT, INT, INT, INT)
+    lw = z3.Function('walkin!%d' % next(_fresh), INT, INT, INT, INT)
+    g = lambda a, b: z3.Select(z3.Select(G, a), b)
+    return z3.ForAll([x, y, m], z3.Implies(z3.And(x >= 0, x < n, y >= 0, y < n, m >= 1, walk(G, x, y, m)),
+                                           z3.And(fw(x, y, m) >= 0, fw(x, y, m) < n, g(x, fw(x, y, m)) != 0, lw(x, y, m) >= 0, lw(x, y, m) < n, g(lw(x, y, m), y) != 0)),
+                     patterns=[walk(G, x, y, m)])
+
+
 def _sb_lemma_reach_closed(eng, st, node):
     """LEMMA (Lean: reach_closed, induction on the walk length): a node set P that contains s and is closed under following connections
     contains every node reachable from s.  lemma_reach_closed(G, s, P, n) with P a boolean array."""
@@ -2624,6 +2658,15 @@ def _sb_where_index(eng, st, node):
     if w is None:
         raise ContractError('where_index: not the first result of a 2-D np.where')
     return w(to_z3(eng.ev(node.args[1], st), INT), to_z3(eng.ev(node.args[2], st), INT))
+
+
+def _sb_where_index1(eng, st, node):
+    """where_index1(ix, x): the position of x in the result ix of a 1-D np.where / np.delete-complement (meaningful where the condition holds)."""
+    v = eng.ev(node.args[0], st)
+    w = st.heap[v.oid].meta.get('where_idx') if isinstance(v, Ref) else None
+    if w is None or st.heap[v.oid].meta.get('where_cond1') is None:
+        raise ContractError('where_index1: not the result of a 1-D np.where')
+    return w(to_z3(eng.ev(node.args[1], st), INT))
 
 
 def _sb_argsort_inverse(eng, st, node):
@@ -2828,7 +2871,7 @@ SPEC_BUILTINS = {
     'dot2': _sb_dot2, 'isperm': _sb_isperm, 'same_object': _sb_same_object, 'unchanged': _sb_unchanged,
     'snapshot': _sb_snapshot, 'argref': _sb_argref, 'lam1': _sb_lam1, 'KCf': _sb_KCf, 'KNf': _sb_KNf, 'result_is_empty': _sb_result_is_empty, 'hopsint': _sb_hopsint, 'lam2': _sb_lam2, 'unique_witness': _sb_unique_witness, 'member': _sb_member, 'dset': _sb_dset(dset), 'rset': _sb_dset(rset), 'wset': _sb_dset(wset), 'cntb': _sb_cntb,
     'modsum': _mk_mod(modsum, 3), 'modsumT': _mk_mod(modsumT, 3), 'degsum': _mk_mod(degsum, 2), 'degsumT': _mk_mod(degsumT, 2), 'agg': _mk_mod(agg, 3),
-    'Qmod': _sb_Qmod, 'walk': _sb_walk, 'isint': (lambda eng, st, node: z3.IsInt(to_z3(eng.ev(node.args[0], st), REAL))), 'sdist': _sb_sdist, 'lemma_walks': _sb_lemma_walks, 'Qrawg': _sb_Qrawg, 'umul': _sb_umul, 'lemma_umul_linear': _sb_lemma_umul_linear, 'QrawB': _mk_mod(QrawB, 1), 'tsum': _mk_specfn(tsum, 1), 'csum': _mk_specfn(csum, 2), 'lemma_modularity': _sb_lemma_modularity, 'lemma_knm_sums': _sb_lemma_knm_sums, 'lemma_relabel': _sb_lemma_relabel, 'lemma_relabel_g': _sb_lemma_relabel_g, 'lemma_agg_compose': _sb_lemma_agg_compose, 'pathsum': _sb_pathsum, 'lemma_pathsum': _sb_lemma_pathsum, 'appended_value': (lambda eng, st, node: st.ghost['_append_last'][1]), 'lemma_reach_closed': _sb_lemma_reach_closed, 'mpw': _sb_mpw, 'mateq': _sb_mateq, 'lemma_mpw': _sb_lemma_mpw, 'lemma_pathsum_append': _sb_lemma_pathsum_append, 'lemma_ext_B': _sb_lemma_ext_B, 'lemma_Q_from_kernel': _sb_lemma_Q_from_kernel, 'lemma_QrawB_def': _sb_lemma_QrawB_def, 'lemma_trace_agg': _sb_lemma_trace_agg, 'lemma_relabel_B': _sb_lemma_relabel_B, 'lemma_agg_compose_B': _sb_lemma_agg_compose_B, 'lemma_Qrawg_def': _sb_lemma_Qrawg_def, 'lemma_agg_compose_g': _sb_lemma_agg_compose_g, 'lemma_qg_from_aggregate': _sb_lemma_qg_from_aggregate, 'lemma_flat_count': _sb_lemma_flat_count, 'unique_count': (lambda eng, st, node: st.ghost['unique_count_last']), 'rounds_to': _sb_rounds_to, 'where_index': _sb_where_index, 'argsort_inverse': _sb_argsort_inverse, 'exists': _sb_exists, 'lemma_tsum_add': _sb_lemma_tsum_add, 'lemma_tsum_int': _sb_lemma_tsum_int, 'lemma_full_offdiag': _sb_lemma_full_offdiag, 'flat_store_rows': (lambda eng, st, node: st.ghost['_flat_store'][0]), 'flat_store_cols': (lambda eng, st, node: st.ghost['_flat_store'][1]), 'flat_store_len': (lambda eng, st, node: st.ghost['_flat_store'][2]), 'lemma_tsum_plus_transpose': _sb_lemma_tsum_plus_transpose, 'lemma_image_count': _sb_lemma_image_count,
+    'Qmod': _sb_Qmod, 'walk': _sb_walk, 'isint': (lambda eng, st, node: z3.IsInt(to_z3(eng.ev(node.args[0], st), REAL))), 'sdist': _sb_sdist, 'lemma_walks': _sb_lemma_walks, 'Qrawg': _sb_Qrawg, 'umul': _sb_umul, 'lemma_umul_linear': _sb_lemma_umul_linear, 'QrawB': _mk_mod(QrawB, 1), 'tsum': _mk_specfn(tsum, 1), 'csum': _mk_specfn(csum, 2), 'lemma_modularity': _sb_lemma_modularity, 'lemma_knm_sums': _sb_lemma_knm_sums, 'lemma_relabel': _sb_lemma_relabel, 'lemma_relabel_g': _sb_lemma_relabel_g, 'lemma_agg_compose': _sb_lemma_agg_compose, 'pathsum': _sb_pathsum, 'lemma_pathsum': _sb_lemma_pathsum, 'appended_value': (lambda eng, st, node: st.ghost['_append_last'][1]), 'lemma_reach_closed': _sb_lemma_reach_closed, 'lemma_walk_ends': _sb_lemma_walk_ends, 'lemma_nonneg_sum_zero': _sb_lemma_nonneg_sum_zero, 'mpw': _sb_mpw, 'mateq': _sb_mateq, 'lemma_mpw': _sb_lemma_mpw, 'lemma_pathsum_append': _sb_lemma_pathsum_append, 'lemma_ext_B': _sb_lemma_ext_B, 'lemma_Q_from_kernel': _sb_lemma_Q_from_kernel, 'lemma_QrawB_def': _sb_lemma_QrawB_def, 'lemma_trace_agg': _sb_lemma_trace_agg, 'lemma_relabel_B': _sb_lemma_relabel_B, 'lemma_agg_compose_B': _sb_lemma_agg_compose_B, 'lemma_Qrawg_def': _sb_lemma_Qrawg_def, 'lemma_agg_compose_g': _sb_lemma_agg_compose_g, 'lemma_qg_from_aggregate': _sb_lemma_qg_from_aggregate, 'lemma_flat_count': _sb_lemma_flat_count, 'unique_count': (lambda eng, st, node: st.ghost['unique_count_last']), 'rounds_to': _sb_rounds_to, 'where_index': _sb_where_index, 'where_index1': _sb_where_index1, 'argsort_inverse': _sb_argsort_inverse, 'exists': _sb_exists, 'lemma_tsum_add': _sb_lemma_tsum_add, 'lemma_tsum_int': _sb_lemma_tsum_int, 'lemma_full_offdiag': _sb_lemma_full_offdiag, 'flat_store_rows': (lambda eng, st, node: st.ghost['_flat_store'][0]), 'flat_store_cols': (lambda eng, st, node: st.ghost['_flat_store'][1]), 'flat_store_len': (lambda eng, st, node: st.ghost['_flat_store'][2]), 'lemma_tsum_plus_transpose': _sb_lemma_tsum_plus_transpose, 'lemma_image_count': _sb_lemma_image_count,
     'frow': (lambda eng, st, node: frow(to_z3(eng.ev(node.args[0], st), INT), to_z3(eng.ev(node.args[1], st), INT))), 'fcol': (lambda eng, st, node: fcol(to_z3(eng.ev(node.args[0], st), INT), to_z3(eng.ev(node.args[1], st), INT))), 'lemma_agg_symm': _sb_lemma_agg_symm, 'lemma_agg_identity': _sb_lemma_agg_identity, 'lemma_q_from_aggregate': _sb_lemma_q_from_aggregate,
     'lemma_masked_degree': _sb_lemma_masked_degree, 'lemma_degree_monotone': _sb_lemma_degree_monotone, 'result': _sb_result, 'raised': _sb_raised, 'shape_is': _sb_shape_is,
 }
